@@ -103,6 +103,8 @@ pub fn large_container_stream(rep: &mut Report, rng: &mut Rng, n: usize) {
 
 fn cases(rep: &mut Report, rng: &mut Rng, n: usize, big: Option<(&EGraph, usize, String)>, lean_lines: &mut Vec<String>, lean_expect: &mut Vec<String>) {
     let fill = big.as_ref().map(|b| b.1).unwrap_or(0);
+    let seq_base: EGraph = match &big { None => { let mut a = EGraph::default(); engine::run(&mut a, HDR); a } Some((base, _, _)) => (*base).clone() };
+    let par_base: EGraph = seq_base.clone().with_num_threads(4);
     for ci in 0..n {
         let nsteps = 3 + rng.below(8);
         let mut steps = vec![];
@@ -119,10 +121,9 @@ fn cases(rep: &mut Report, rng: &mut Rng, n: usize, big: Option<(&EGraph, usize,
         for _ in 0..nsteps { steps.push(match rng.below(10) { 0..=2 => Step::Add(gen_cont(rng)), 3..=7 => Step::Union(rng.below(4), rng.below(4)), _ => Step::Run }); }
         steps.push(Step::Run);
         rep.evaluations += 1;
-        let (mut semi, mut naive, mut par) = match &big {
-            None => { let mut a = EGraph::default(); let mut b = EGraph::default(); let mut c = EGraph::default().with_num_threads(4); for e in [&mut a, &mut b, &mut c] { engine::run(e, HDR); } (a, b, c) }
-            Some((base, _, _)) => ((*base).clone(), (*base).clone(), (*base).clone().with_num_threads(4)),
-        };
+        // one 4-thread engine per stream, cloned per case: `with_num_threads` builds a thread pool, and a pool per
+        // case (thousands in the thorough tier) keeps its threads' memory pools alive
+        let (mut semi, mut naive, mut par) = (seq_base.clone(), seq_base.clone(), par_base.clone());
         naive.seminaive = false;
         let mut f: Vec<usize> = (0..4).collect();
         let mut holders: Vec<Cont> = vec![];
